@@ -74,6 +74,7 @@ type HarnessSpec struct {
 	EffectsOf []string          `json:"effects_of,omitempty"` // C20: report stores to pre-existing memory
 	Params    map[string]int    `json:"params,omitempty"`     // concrete parameters passed to the entry (lengths etc.)
 	LoopAssume map[string]int   `json:"loop_assume,omitempty"` // function name -> iteration bound taken as an ASSUMPTION (stated bound)
+	ApproxBitops bool           `json:"approx_bitops,omitempty"` // int mode: inexpressible bit operations yield an arbitrary value (effect harnesses only)
 	BigBytesHavoc int           `json:"big_bytes_havoc,omitempty"` // big.Int.Bytes() of a symbolic value: fresh slice of this length, arbitrary content (effect analysis)
 	BigShared bool              `json:"big_shared,omitempty"` // math/big storage-sharing model: struct copies of a big.Int share the limbs
 	External  []string          `json:"external,omitempty"`  // package path prefixes treated as uninterpreted
@@ -368,6 +369,7 @@ func newMachine(prog *ssa.Program, h HarnessSpec) *Machine {
 	m.externalPkgs = h.External
 	m.bigShared = h.BigShared
 	m.bigBytesHavoc = h.BigBytesHavoc
+	m.approxBits = h.ApproxBitops
 	m.contracts = h.Contracts
 	return m
 }
